@@ -205,8 +205,48 @@ def _queue_rule(chk, prog):
         raise AnalysisBroken("only %d queue field writes found" % n)
 
 
+def _select_rule(chk, prog):
+    rule = "C06-SELECT"
+    chk.rule(rule, "ev/select's immediate pass performs an operation only on a clause it found ready; waiting clauses are registered in a later pass")
+    fn = prog.need_func("cfun_channel_choice", "ev.c")
+    chk.analysed(fn)
+    loops = [n for n in fn.nodes if n.k == "for"]
+    n = 0
+    for lp in loops:
+        body = lp.kids[3]
+        rets = [x for x in body.walk() if x.k == "return"]
+        ops = [x for x in body.walk() if x.k == "call" and (x.callee or "").endswith("_with_lock")]
+        if not ops:
+            continue
+        for op in ops:
+            n += 1
+            chk.instance(rule)
+            if not rets:
+                chk.ok(rule, "registration pass: %s without early result" % op.callee)
+                continue
+            # immediate pass: the operation must sit under a readiness test of the channel's queue
+            guarded = False
+            for a in op.ancestors():
+                if a is lp:
+                    break
+                if a.k == "if":
+                    cond = a.kids[0]
+                    if any(x.k == "mem" and x.field in ("items", "limit", "head", "tail") for x in cond.walk()):
+                        guarded = True
+            if guarded:
+                chk.ok(rule, "immediate pass: %s only when the clause is ready" % op.callee)
+            else:
+                chk.violation(rule, "ev.c", fn.name, op.callee, op.loc,
+                              "in the pass that can return a result at once, %s is called without first testing that the "
+                              "clause is ready: a clause that is not ready registers this fiber on its channel, and a later "
+                              "clause completing leaves that registration behind as a live-looking waiter" % op.callee)
+    if n < 2:
+        raise AnalysisBroken("cfun_channel_choice: only %d channel operations found" % n)
+
+
 def run(chk):
     prog = Program.load("default", units=["ev.c"])
+    _select_rule(chk, prog)
     _nolostwake_rule(chk, prog)
     _sched_rule(chk, prog)
     _queue_rule(chk, prog)
